@@ -303,6 +303,30 @@ def rule_wiring(facts, rep):
                         cb = hir.simp(clo["body"])
                         ok = hir.is_call(cb, "Result::<T, E>::ok") and hir.is_call(hir.simp(cb["args"][0]), "core::str::<impl str>::parse") and \
                             "u8" in hir.simp(cb["args"][0]).get("ty", "")
+    if not ok and s1.get("k") == "let" and s1["pat"].get("k") == "pbind" and n_early + 1 < len(top):
+        # the same written as a loop: `let mut parts = VecDeque::new(); for f in code.split(';') { match f.parse::<u8>() { Ok(v) =>
+        # parts.push_back(v), Err(_) => return None } }`
+        init = hir.simp(s1["init"])
+        try:
+            fl = hir.for_loop(top[n_early + 1])
+        except Unrecognised:
+            fl = None
+        if hir.is_call(init, "VecDeque::<T>::new", "VecDeque::new", "new") and "VecDeque" in str(init.get("ty", "")) and "u8" in str(init.get("ty", "")) and fl:
+            pat, it, body = fl
+            sp = hir.simp(hir.peel(it))
+            inner = [hir.simp(x) for x in hir.stmts_of(body)]
+            if hir.is_call(sp, "core::str::<impl str>::split") and hir.is_local(sp["args"][0], code) and hir.lit_val(sp["args"][1]) == ord(";") \
+                    and pat.get("k") == "pbind" and len(inner) == 1 and inner[0].get("k") == "match" and len(inner[0]["arms"]) == 2:
+                m_ = inner[0]
+                sc = hir.simp(m_["scrut"])
+                arms = {hir.last_seg(hir.pat_path(a_["pat"])): a_ for a_ in m_["arms"] if not a_.get("guard")}
+                if hir.is_call(sc, "core::str::<impl str>::parse") and "u8" in sc.get("ty", "") and hir.is_local(hir.peel(sc["args"][0]), pat["name"]) \
+                        and set(arms) == {"Ok", "Err"}:
+                    okb = hir.simp(ac.single_expr(arms["Ok"]["body"]))
+                    v = arms["Ok"]["pat"]["pats"][0] if arms["Ok"]["pat"].get("k") == "pts" else {}
+                    eb = hir.simp(ac.single_expr(arms["Err"]["body"]))
+                    ok = hir.is_call(okb, "push_back") and hir.is_local(hir.peel(okb["args"][0]), s1["pat"]["name"]) and hir.is_local(okb["args"][1], v.get("name")) \
+                        and eb.get("k") == "ret" and hir.is_def(eb.get("e"), "Option::None")
     rep.check(ok, "wiring", b["path"], "all-or-nothing-u8-split",
               "code.split(';').map(|c| c.parse::<u8>().ok()).collect::<Option<_>>()? — one bad element rejects the whole string", loc(b, s1))
     # four locals start empty
